@@ -254,6 +254,8 @@ func checkC09(c *Ctx) {
 	checkJoinBeforeRelease(c, "R9")
 	c.Rule("R10", "connection table discipline: the terminal sweep ranges over a snapshot read under the table mutex; one address is deleted from the table only by the goroutine that ran the connection registered under it")
 	checkClientTableDiscipline(c, "R10")
+	c.Rule("R11", "draining keeps established connections: the drain latch is read by the binding and accepting code only, never by code that runs per accepted connection")
+	checkDrainKeepsAccepted(c, "R11")
 }
 
 func checkListener(c *Ctx, ce *chanEngine) {
@@ -1463,5 +1465,53 @@ func checkClientTableDiscipline(c *Ctx, rule string) {
 	}
 	if nd == 0 {
 		c.Unresolved(rule, "no deleter of a single address of the connection table")
+	}
+}
+
+// checkDrainKeepsAccepted (C09.R11, C17.R10): draining stops the accepting of new connections and keeps the established
+// ones. A connection that Accept has returned is established - its goroutine may reach the admission code only after
+// Drain closed the latch. The drain latch may therefore be read by the binding and accepting code only, never by the
+// code that runs per accepted connection (admission, registration, the handler call).
+func checkDrainKeepsAccepted(c *Ctx, rule string) {
+	p := c.P
+	drain := p.Field(procPkg, "listener", "drain")
+	perConn := p.Func(procPkg, "(*listener).handleRawConn")
+	if drain == nil || perConn == nil {
+		c.Unresolved(rule, "listener.drain / listener.handleRawConn")
+		return
+	}
+	cone := map[*ssa.Function]bool{}
+	var walk func(f *ssa.Function, depth int)
+	walk = func(f *ssa.Function, depth int) {
+		if f == nil || cone[f] || f.Blocks == nil || depth > 6 {
+			return
+		}
+		if pk := fnPkg(f); pk == nil || pk.Pkg.Path() != modPath+"/"+procPkg {
+			return
+		}
+		cone[f] = true
+		for _, a := range f.AnonFuncs {
+			walk(a, depth+1)
+		}
+		eachInstr(f, func(_ *ssa.BasicBlock, _ int, in ssa.Instruction) {
+			if ci, ok := in.(ssa.CallInstruction); ok {
+				for _, h := range p.callees(ci) {
+					walk(h, depth+1)
+				}
+			}
+		})
+	}
+	walk(perConn, 0)
+	n := 0
+	for _, op := range p.chanOpsOnField(drain) {
+		if op.Kind != opRecv || p.isTestFn(op.Fn) {
+			continue
+		}
+		n++
+		site := fmt.Sprintf("%s reads the drain latch on the accepting side", fnKey(op.Fn))
+		c.Check(!cone[op.Fn] && !cone[topFn(op.Fn)], rule, site, op.In.Pos(), "binding / accepting code", "the drain latch is tested by code that runs for a connection Accept has already returned: a connection established just before the drain is closed unserved, although draining must keep established connections")
+	}
+	if n == 0 {
+		c.Unresolved(rule, "no read of listener.drain")
 	}
 }
